@@ -32,6 +32,10 @@ def run(w: World, rep: Report):
     _r4(w, rep)
     _r5(w, rep)
     _r6(w, rep)
+    from .report import depend
+    depend(rep, w, 'rules_c19', ('C19.R3', 'C19.R4'), 'C09.TD19',
+           'the configuration of a run is what the embedder supplied for that run: no run writes into a shared default '
+           'argument or into the embedder\'s dictionaries (C19.R3/R4 re-evaluated)', floor=20)
     rep.explanation = (
         'Decides, per sub-tape construction site and per run_tape call site, that the embedder\'s '
         'configuration reaches the nested execution: constructor keywords / attribute stores '
